@@ -4,8 +4,11 @@ import z3
 LEVEL = 'proof'
 EXPLANATION = ('define_blockshape_3d/_2d (real source, re-read every run) verified against VALID3/VALID2: normal return => '
                'valid and as requested; a valid request (at most one free component) is never refused; every path, for '
-               'int / float / numeric-string bits_per_voxel and arbitrary integer block dimensions. Layout obligations '
-               'for every valid setting live in C01/C02/C09.')
+               'int / float / numeric-string bits_per_voxel and arbitrary integer block dimensions. C19 promises the guarantees of '
+               'C01-C03 for every accepted setting, so the contract sets of C01, C02 and C03 (producers, header, reader init, loaders and '
+               'readers over the configuration case split incl. blockshapes with unequal inline / crossline / sample dimensions) are part '
+               'of this check (INCLUDES); the 2-D layouts are in C09.')
+INCLUDES = ('C01', 'C02', 'C03')
 ASSUMPTIONS = [
     'S3(a): float bits_per_voxel modelled as exact reals (sound on the dyadic rate set; near-miss floats enumerated under CPython in the bounded stage)',
     'blockshape components are Python ints (the CLI and API pass ints)',
